@@ -129,6 +129,17 @@ def run_history_real(ops, V, cache_dir):
             ok = same(got, ref)
             trace.append(cache.last if ok or cache.last != "H" else "H!")
             transparent.append(True if ok else "differs")
+            # what a caller ordinarily does next: post-process the returned arrays in place (normalise, subtract the
+            # background, shift the coordinates).  Nothing the cache hands out later may be affected by it.
+            try:
+                grid, conc, flx = got
+                for a in (conc, flx) + tuple(grid):
+                    a = np.asarray(a)
+                    if a.flags.writeable and a.size:
+                        a += 1.0
+                        a *= 3.0
+            except Exception:  # noqa: BLE001
+                pass
         elif kind == "C":
             # interrupt the store: np.savez writes a prefix of the intended bytes, then the process dies
             real_savez = np.savez
